@@ -451,8 +451,34 @@ pub fn strategy() -> impl Strategy<Value = Case> {
             (any::<u64>(), 1_048_000usize..2_600_000, 1u8..6, stored(), g::suffix(), fidx()).prop_map(|(s, l, a, msg, suffix, filter)| Case::Parse { junk: scrub(expand_bytes(s, l, a)), msg, suffix, filter }),
         ],
         600 => (junk(), prop_oneof![8 => stored(), 1 => g::message(g::MsgParams { storage: g::StorageMode::Always, ..Default::default() })], prop_oneof![3 => g::suffix(), 1 => (vec(any::<u8>(), 1..20), stored()).prop_map(|(mut j, m)| { j.extend(refcodec::encode(&m)); j })], fidx())
-            .prop_map(|(junk, msg, suffix, filter)| Case::Parse { junk, msg, suffix, filter }),
-        300 => (vec(stored(), 1..6), vec(junk(), 7), fidx()).prop_map(|(msgs, junks, filter)| Case::Stream { msgs, junks, filter }),
+            .prop_map(|(junk, msg, mut suffix, filter)| {
+                // sometimes the record is directly followed by an identical copy of itself (a logger that rewrote its last buffer)
+                if junk.len() % 5 == 1 {
+                    let mut twice = refcodec::encode(&msg);
+                    if suffix.len() % 2 == 0 {
+                        twice.extend(refcodec::encode(&msg));
+                    }
+                    twice.extend(suffix);
+                    suffix = twice;
+                }
+                Case::Parse { junk, msg, suffix, filter }
+            }),
+        300 => (vec(stored(), 1..6), vec(junk(), 7), fidx()).prop_map(|(msgs, mut junks, filter)| {
+            // sometimes records are doubled (identical neighbours with no junk between them)
+            let mut out = vec![];
+            let mut j2 = vec![junks[0].clone()];
+            for (i, m) in msgs.iter().enumerate() {
+                out.push(m.clone());
+                let own_junk = junks.get(i + 1).cloned().unwrap_or_default();
+                if (m.mcnt as usize + i) % 4 == 0 && out.len() < 7 {
+                    j2.push(vec![]);
+                    out.push(m.clone());
+                }
+                j2.push(own_junk);
+            }
+            junks = j2;
+            Case::Stream { msgs: out, junks, filter }
+        }),
     ]
 }
 
